@@ -146,7 +146,7 @@ T.update({
 def main():
     ids = sys.argv[1:] or sorted(T)
     for i in ids:
-        src = f"/tmp/wt2-{i[:3]}/SEEDED" if i.endswith("-r2") else f"/tmp/wt-{i}/SEEDED"
+        src = f"/tmp/wt3-{i[:3]}/SEEDED" if i.endswith("-r3") else f"/tmp/wt2-{i[:3]}/SEEDED" if i.endswith("-r2") else f"/tmp/wt-{i}/SEEDED"
         dst = f"/verif/seeded/{i}"
         os.makedirs(dst, exist_ok=True)
         if os.path.isdir(src):
@@ -163,7 +163,7 @@ def main():
         m = dict(T[i])
         meta = {
             "property": i[:3],
-            "round": 2 if i.endswith("-r2") else 1,
+            "round": 3 if i.endswith("-r3") else 2 if i.endswith("-r2") else 1,
             "files_changed": m["file"],
             "change": m["what"],
             "needs_to_manifest": m["needs"],
